@@ -55,8 +55,8 @@ def st_dir():
     return st.fixed_dictionaries({
         "rel":
             st.sampled_from([
-                "root", "root", "new", "new", "reuse", "reuse", "nested",
-                "ancestor"
+                "root", "root", "new", "new", "reuse", "reuse", "reuse",
+                "nested", "nested", "ancestor", "ancestor"
             ]),
         "pick":
             st.integers(0, 5),
